@@ -66,6 +66,8 @@ func (m *model) ruleWorker(s *report.Sink) {
 	}
 	if len(runCalls) != 1 {
 		s.Bad("S11", "worker|single call of job.run", m.pos(fn.Pos()), fmt.Sprintf("%d call sites of ScheduledJob.run (want exactly 1, in the worker)", len(runCalls)))
+		m.ruleSentinel(s, nil)
+		m.ruleDeathPath(s, nil, nil)
 		return
 	}
 	rc := runCalls[0]
@@ -107,6 +109,8 @@ func (m *model) ruleWorker(s *report.Sink) {
 	iterRegion := func(b *ssa.BasicBlock) bool { return body.Dominates(b) && b != m.wLoopHdr }
 	if len(sends) != 1 || !m.inWorkerIter(sends[0].Block()) || !m.mustPass(body, iterRegion, sends[0]) || reachFrom(sends[0].Block(), rc.in.Block()) && ssax.ReachableAvoiding(sends[0].Block().Succs[0], rc.in.Block(), map[*ssa.BasicBlock]bool{m.wLoopHdr: true}) {
 		s.Bad("S14", "worker|one unconditional result per received job", m.ipos(m.wRecv), "the worker loop does not post exactly one result, unconditionally, after the job ran, on its result channel (lost or duplicated results break termination and exactly-once accounting)")
+		m.ruleSentinel(s, nil)
+		m.ruleDeathPath(s, rc.in, nil)
 		return
 	}
 	send := sends[0]
@@ -133,6 +137,8 @@ func (m *model) ruleWorker(s *report.Sink) {
 	}
 	if cell == nil {
 		s.Unk("S14", "worker|result value", m.ipos(send), "sent value is not a local struct variable")
+		m.ruleSentinel(s, nil)
+		m.ruleDeathPath(s, rc.in, send)
 		return
 	}
 	jobStores := m.structFieldStores(cell, m.jrJob, 0)
@@ -191,7 +197,23 @@ func (m *model) ruleWorker(s *report.Sink) {
 		silent := ssax.ReachableAvoiding(body, send.Block(), avoid) && !avoid[body]
 		s.Check(!silent, "S14", "worker|every skipped job reports why", m.ipos(send), "a job that is not run posts the ctx error or the sentinel", "some path posts a result with a nil error without having run the job: the job counts as succeeded")
 	}
-	// S24 sentinel confinement
+	m.ruleSentinel(s, sentinel)
+	m.ruleDeathPath(s, rc.in, send)
+}
+
+// S24 sentinel confinement.
+func (m *model) ruleSentinel(s *report.Sink, sentinel *ssa.Global) {
+	fn := m.fnWorker
+	if sentinel == nil {
+		// not identified through the result: any package-level error variable the worker loads
+		for _, f := range ssax.WithAnon(fn) {
+			ssax.Instrs(f, func(in ssa.Instruction) {
+				if u, ok := in.(*ssa.UnOp); ok && m.isSentinelLoad(u) && sentinel == nil {
+					sentinel = u.X.(*ssa.Global)
+				}
+			})
+		}
+	}
 	if sentinel == nil {
 		s.Unk("S24", "sentinel|identification", m.pos(fn.Pos()), "no package-level sentinel error assigned for invalid jobs")
 	} else {
@@ -248,7 +270,12 @@ func (m *model) ruleWorker(s *report.Sink) {
 		}
 	}
 
-	// S15 death path
+}
+
+// S15 death path.
+func (m *model) ruleDeathPath(s *report.Sink, runCall ssa.Instruction, send *ssa.Send) {
+	fn := m.fnWorker
+	jobKey := m.key(m.wJob)
 	dfn := m.fnWorkerDefer
 	if dfn == nil {
 		s.Bad("S15", "worker|death path", m.pos(fn.Pos()), "worker has no deferred function: a job that kills its goroutine (runtime.Goexit) loses its result and a worker")
@@ -350,7 +377,10 @@ func (m *model) ruleWorker(s *report.Sink) {
 		}
 		s.Check(good && n >= 1, "S15", "worker|exitCleanly set only after the receive loop ended", m.pos(fn.Pos()), "set true after the ready channel was closed", "exitCleanly can be true while a job is running: a Goexit would be treated as clean exit (lost worker, lost result)")
 	}
-	if curCell != nil {
+	if curCell != nil && (runCall == nil || send == nil) {
+		s.Unk("S15", "worker|currentJob tracks the running job", m.pos(fn.Pos()), "the run call / normal result post were not identified")
+	}
+	if curCell != nil && runCall != nil && send != nil {
 		var setJ, setNil []ssa.Instruction
 		bad := false
 		for _, f := range ssax.WithAnon(fn) {
@@ -374,10 +404,10 @@ func (m *model) ruleWorker(s *report.Sink) {
 			// set to j before run on every path ...
 			dom := false
 			for _, x := range setJ {
-				if ssax.Before(x, rc.in) {
+				if ssax.Before(x, runCall) {
 					dom = true
 					for _, y := range setNil {
-						if between(x, y, rc.in) {
+						if between(x, y, runCall) {
 							dom = false
 						}
 					}
@@ -387,27 +417,27 @@ func (m *model) ruleWorker(s *report.Sink) {
 			avoid := map[*ssa.BasicBlock]bool{m.wLoopHdr: true}
 			cleared := true
 			for _, y := range setNil {
-				if y.Block() == rc.in.Block() && ssax.InstrIndex(y) > ssax.InstrIndex(rc.in) {
-					avoid[rc.in.Block()] = true // cleared right after the call in the same block
+				if y.Block() == runCall.Block() && ssax.InstrIndex(y) > ssax.InstrIndex(runCall) {
+					avoid[runCall.Block()] = true // cleared right after the call in the same block
 				} else if y.Block() == send.Block() && ssax.InstrIndex(y) < ssax.InstrIndex(send) {
 					avoid[send.Block()] = true
-				} else if y.Block() != rc.in.Block() && y.Block() != send.Block() {
+				} else if y.Block() != runCall.Block() && y.Block() != send.Block() {
 					avoid[y.Block()] = true
 				}
 			}
-			if !avoid[rc.in.Block()] && !avoid[send.Block()] {
-				for _, su := range rc.in.Block().Succs {
+			if !avoid[runCall.Block()] && !avoid[send.Block()] {
+				for _, su := range runCall.Block().Succs {
 					if ssax.ReachableAvoiding(su, send.Block(), avoid) {
 						cleared = false
 					}
 				}
-				if rc.in.Block() == send.Block() {
+				if runCall.Block() == send.Block() {
 					cleared = false
 				}
 			}
 			good = dom && cleared
 		}
-		s.Check(good, "S15", "worker|currentJob tracks the running job", m.ipos(rc.in), "currentJob = j before run, nil after run and before the normal post", "currentJob is not (only) set to the received job before run and cleared between run and the normal result post: the death path would report the wrong job or one job twice")
+		s.Check(good, "S15", "worker|currentJob tracks the running job", m.ipos(runCall), "currentJob = j before run, nil after run and before the normal post", "currentJob is not (only) set to the received job before run and cleared between run and the normal result post: the death path would report the wrong job or one job twice")
 	}
 }
 
